@@ -1065,6 +1065,14 @@ def checkIdentity (sp : Spec) (s : SerProfile) : Option String :=
   | some c => some s!"counter {c}: pid or mainThreadIndex does not denote the first thread of the process the caller named"
   | none => none
 
+/-- the caller's view (`PT.CallerView`) computed from the op lines alone -/
+def Spec.view (sp : Spec) : CallerView where
+  procs := sp.procs.map (·.pid)
+  threads := sp.threads.map (fun th => (th.proc, th.tid, th.isMain))
+  counters := sp.counters.map (fun p => (p, ((sp.procs[p]?).map (·.pid)).getD "?"))
+  visible := sp.visible
+  selected := sp.selected
+
 /-- canonical interning of samples and markers of one thread; `none` = fine -/
 def checkThreadCanonical (sp : Spec) (s : SerProfile) (h : Nat) : Option String :=
   match sp.threads[h]? with
@@ -1130,9 +1138,12 @@ def judge (ops impl : List String) : Bool × String :=
         (false, "[alloc-foreign-stack] " ++ whyWf s)
       else (false, whyWf s)
     else
+    -- the identity clauses: `PT.identOk` is the conclusion of theorem `C03_identity`; `checkIdentity`
+    -- (the first round's formulation of the same clauses) names the failing clause and stays a verdict
     match checkIdentity sp s with
     | some e => (false, e)
     | none =>
+    if !identOk sp.view s then (false, "identity clauses (identOk) violated") else
     if sp.oddMaps then (true, "ok (canonical clause not judged: empty or inverted mapping range)") else
     match (List.range sp.threads.length).findSome? (checkThreadCanonical sp s) with
     | some e => (false, e)
